@@ -420,6 +420,21 @@ def judge_twin(cid, seed):
         probs[0] = 'after converting an equal-code function with other defaults first: ' + probs[0]
         out['detail_src'] = src[len(HEADER):]
         break
+      # the very same code object over another globals dictionary (a module body executed into two namespaces)
+      import types
+      m2 = diff.load_instance(src, 'c9t')
+      mods.append(m2)
+      m2.G = m2.G + 1000
+      clone = types.FunctionType(m.f.__code__, m2.__dict__, 'f', m.f.__defaults__, None)
+      clone.__kwdefaults__ = dict(m.f.__kwdefaults__) if m.f.__kwdefaults__ else None
+      log0 = len(m2.LOG)
+      g2 = malt.to_graph(clone)
+      counters['same_code_other_globals'] += 1
+      check_pair(clone, g2, m2, meta, calls, log0, probs, counters)
+      if probs:
+        probs[0] = 'same code object over another globals dictionary, converted second: ' + probs[0]
+        out['detail_src'] = src[len(HEADER):]
+        break
   finally:
     for m in mods:
       diff.unload(m)
